@@ -99,4 +99,31 @@ PROPS = {
         tables=[T + "exceptions_model"],
         explore=cc.explore_c20,
     ),
+    "C09": dict(
+        modules=["JPV.Props.C09"],
+        theorems=["JPV.Props.C09", "JPV.Props.C09_no_index_error", "JPV.Props.C09_surrogate_arith"],
+        tables=[T + "escapes_model", T + "regexes_model"],
+        explore=ct.explore_c09,
+    ),
+    "C13": dict(
+        modules=["JPV.Props.C13", "JPV.Props.C09"],
+        theorems=["JPV.Props.C13_lex", "JPV.Props.C13_token_shapes", "JPV.Props.C13_eval_partial", "JPV.Props.C13_str_total",
+                  "JPV.Props.C09_no_index_error", "JPV.Props.C05_partial"],
+        tables=[T + "exceptions_model", T + "regexes_model", T + "escapes_model", T + "token_map_model"],
+        explore=ct.explore_c13,
+    ),
+    "C03": dict(
+        modules=["JPV.Props.C09", "JPV.Props.C13"],
+        theorems=["JPV.Props.C09", "JPV.Props.C13_lex", "JPV.Props.C13_token_shapes"],
+        tables=[T + "regexes_model", T + "escapes_model", T + "token_map_model", T + "function_argument_map_model",
+                T + "precedences_model", T + "binary_operators_model", T + "builtin_sigs_model", T + "env_defaults_model"],
+        explore=ct.explore_c03,
+    ),
+    "C04": dict(
+        modules=["JPV.Props.C09", "JPV.Props.C05", "JPV.Props.C13"],
+        theorems=["JPV.Props.C09", "JPV.Props.C05_partial", "JPV.Props.C13_token_shapes", "JPV.Props.C13_lex"],
+        tables=[T + "regexes_model", T + "escapes_model", T + "token_map_model", T + "function_argument_map_model",
+                T + "precedences_model", T + "binary_operators_model", T + "comparison_operators_model"],
+        explore=ct.explore_c04,
+    ),
 }
